@@ -71,6 +71,10 @@ func pathDepth(v ssa.Value, d int, seen map[ssa.Value]bool) string {
 			return pathDepth(p, d, seen)
 		}
 		if v.Comment != "" && v.Comment != "complit" && !strings.HasPrefix(v.Comment, "new") && !strings.HasPrefix(v.Comment, "make") {
+			if renameLocals && v.Comment != "varargs" && v.Comment != "slicelit" && !isParamName(v.Parent(), v.Comment) {
+				// robustness experiment: pretend every named local was renamed
+				return v.Comment + "ʀ"
+			}
 			return v.Comment
 		}
 		return "alloc:" + typeBaseName(v.Type())
